@@ -371,7 +371,7 @@ pub fn run(run: &Run) {
 			CaseOut::pass(k.replay.clone(), true)
 		}
 	});
-	let n = run.tier.pick(15_000, 300_000);
+	let n = run.tier.pick(150_000, 1_500_000);
 	run.explore("questions", n, 40..=400, |src| batch_case(run, src));
 	for f in [
 		"objectFields", "objectFieldsAll", "objectValues", "objectValuesAll", "objectKeysValues", "objectKeysValuesAll", "objectHas", "objectHasAll", "objectHasEx", "objectFieldsEx",
